@@ -5,6 +5,7 @@ import (
 	"fmt"
 	"reflect"
 	"strings"
+	"sync"
 	"time"
 
 	corev1 "k8s.io/api/core/v1"
@@ -35,6 +36,7 @@ type IClient struct {
 	// GracefulPods makes pod deletion graceful (deletionTimestamp = now + grace; the pod stays until the environment removes it)
 	GracefulPods bool
 	seq          int
+	mu           sync.Mutex // calls may come from fan-out goroutines (client-go ParallelizeUntil)
 }
 
 func kindOf(o any) string {
@@ -50,6 +52,8 @@ func (c *IClient) begin(verb string, obj any, name string, note string) (*Call, 
 	if c.Quiet > 0 {
 		return call, nil
 	}
+	c.mu.Lock()
+	defer c.mu.Unlock()
 	c.seq++
 	call.Seq = c.seq
 	if c.Hook != nil {
@@ -66,6 +70,8 @@ func (c *IClient) end(call *Call, err error) error {
 	if c.Quiet > 0 {
 		return err
 	}
+	c.mu.Lock()
+	defer c.mu.Unlock()
 	if err != nil {
 		call.Err = errString(err)
 	}
